@@ -485,7 +485,10 @@ impl Decompressor {
 
         let (mut data, metadata) = self.archive.get_part_by_id(stream_id, 0)?;
         // Decompress if needed; metadata holds original length for packed format
-        let decompressed = if data.is_empty() {
+        // (metadata == 0 means the part was stored raw, exactly as in get_segment)
+        let decompressed = if metadata == 0 {
+            data
+        } else if data.is_empty() {
             Vec::new()
         } else if data.last() == Some(&0) {
             // Plain ZSTD stream with marker 0
